@@ -10,7 +10,7 @@ EXPLANATION = (
     "instantiate dispatch sites and agreement of `funds` with the amount moved by the preceding `send`; dominance of "
     "the transfer over the contract call with `?`-propagation; crate-wide provenance of every `&BlockInfo` argument "
     "(only the enclosing function's block parameter or App.block); Env construction; one address per call in "
-    "with_storage/with_storage_readonly and at the five dispatch sites. Rollback of the transfer follows from C01/C02."
+    "with_storage / query_smart (with_storage_readonly spliced) and at the five dispatch sites. Rollback of the transfer follows from C01/C02."
     " (R3 addition) set_block / update_block make their argument / the action's result the current block on every path (the store dominates every return, in place or on a stored-back copy). (R5) the sub-message sender chain of C03.R3 and (R6) the sub-message cache of C02.R1 are re-stated under C05's id (emitting contract as sender; attached funds returned when an absorbed call fails)."
 )
 TRUSTED = ["rustc MIR construction", "cwmt-facts driver", "vlib (provenance, dominators)", "C01.R2, C02.R1 (rollback)",
@@ -300,8 +300,10 @@ def r3(ctx, cfg):
 
 def r4(ctx, cfg, R="C05.R4"):
     F, P = cfg.facts, cfg.prov
+    # (with_storage_readonly has one caller, query_smart, and is always spliced into it - vlib/inline.py ALWAYS_INLINE - so
+    #  that the read-only obligations read the same whether the helper is kept or inlined by hand)
     for key, cs in ((W + "with_storage", "wasm::Wasm::contract_storage_mut"),
-                    (W + "with_storage_readonly", "wasm::Wasm::contract_storage")):
+                    (W + "query_smart", "wasm::Wasm::contract_storage")):
         f = ctx.need_fn(R, key)
         if f is None:
             continue
@@ -324,11 +326,18 @@ def r4(ctx, cfg, R="C05.R4"):
         ctx.ob(R, key, "handler-from-stored-code_id", ok, "handler is not resolved from the contract's stored code id", fn=f,
                sample="contract_code(contract_data(address).code_id)")
         # Env and Deps are what the action receives
-        once = q.lexical_calls(F, key, ("std::ops::FnOnce", "call_once"))
+        if key == W + "query_smart":
+            # (what the contract's `query` receives, whether it is called in place or in a closure handed to a wrapper)
+            once = [(g, bid, t) for g in F.lexical(key) for bid, t in g.calls() if t["callee"]["key"] == "contracts::Contract::query"]
+        else:
+            once = q.lexical_calls(F, key, ("std::ops::FnOnce", "call_once"))
         ok = len(once) == 1
         if ok:
             g, bid, t = once[0]
-            tup = peel(P.call_args(g, t, bid)[1])
+            if key == W + "query_smart":
+                tup = ("agg", "tuple", tuple((str(i), v) for i, v in enumerate(P.call_args(g, t, bid)[:3])))
+            else:
+                tup = peel(P.call_args(g, t, bid)[1])
             ok = tup[0] == "agg" and len(tup[2]) == 3
             if ok:
                 h, deps, env = [peel(v) for _, v in tup[2]]
